@@ -9,3 +9,4 @@ pub mod dynf;
 pub mod cache;
 pub mod spawny;
 pub mod errs;
+pub mod aggs;
